@@ -256,13 +256,24 @@ func (m *ModelHash64) Size() int           { return 8 }
 func (m *ModelHash64) BlockSize() int      { return 32 }
 func (m *ModelHash64) Sum64() uint64 {
 	if len(m.buf) > 7 {
-		Unsupported("hash model: name longer than 7 bytes")
+		return InjectiveHash(m.buf)
 	}
 	v := uint64(len(m.buf))
 	for i, b := range m.buf {
 		v |= uint64(b) << (8 * uint(i+1))
 	}
 	return v
+}
+
+// InjectiveHash is an uninterpreted injective function of byte strings longer than 7 bytes (engine:
+// a fresh value constrained to be equal to an earlier result iff the inputs are equal; values have the top bit set
+// so they never collide with the packed encoding of short names).
+func InjectiveHash(b []byte) uint64 {
+	h := uint64(14695981039346656037)
+	for _, c := range b {
+		h = (h ^ uint64(c)) * 1099511628211
+	}
+	return h | 1<<63
 }
 
 // Unsupported aborts the path as outside the encodable fragment.
